@@ -28,6 +28,17 @@ PROFILES = [
 
 def witnesses():
     w = []
+    # a failure handled twice: the callee's own handler ends with an error, an outer method's handler catches that one and
+    # completes; the method that called the outer one then goes on with its own 其 and return slot
+    for rethrow in ([Throw("异常", [Str("again")])], [Display(Arith("/", Num(1), Num(0)))]):
+        w.append((([], [Func("Inner", [], [Throw("异常", [Str("first")]), Return(Num(1))], [("异常", [Display(Str("h1"))] + rethrow)]),
+                        Func("Outer", [], [Display(Call("Inner", [])), Return(Num(2))], [("异常", [Display(Str("h2")), Return(Num(3))])]),
+                        Class("C", [("P", Num(7))],
+                              [("Run", [], [Display(Str("run"), ThisProp("P")), Decl([(False, ["V"], Call("Outer", []))]),
+                                            ExprS(AssignThis("P", Arith("+", ThisProp("P"), Var("V")))), Display(Str("after"), ThisProp("P")),
+                                            Return(ThisProp("P"))], [])]),
+                        Decl([(False, ["O"], New("C", []))]), Display(Method(Var("O"), [("Run", [])])), Display(Member(Var("O"), "P")),
+                        Display(Method(Var("O"), [("Run", [])])), Return(Member(Var("O"), "P"))], []), None, "witness"))
     # recursion, 得到, chain, 其 in nested method calls
     w.append((([], [Func("Fact", ["N"], [Branch(Logic("lte", Var("N"), Num(1)), [Return(Num(1))]),
                                          Return(Arith("*", Var("N"), Call("Fact", [Arith("-", Var("N"), Num(1))])))]),
